@@ -167,6 +167,72 @@ def execute_seam(case):
     return {"ok": not fails, "failures": fails, "outcome": "+".join(sorted(outcomes)), "nontrivial": True, "n": len(case["cuts"])}
 
 
+_big = {}
+
+
+def big_setup(lines):
+    """a product whose index is > 1 MiB (size-dependent cache paths); whatever file(s) create_cache leaves"""
+    if _big.get("lines") == lines:
+        return _big
+    env.import_lib()
+    env.wipe_cache()
+    spec = synth.product_spec("1.5", images=[synth.image_spec("HH", None, lines, 1, "IU2")])
+    files, _ = synth.build(spec)
+    prod = harness.Product(files, "mcfs")
+    ref = treesnap.snapshot(prod.open(use_cache=False), with_bytes=False)
+    prod.open(create_cache=True, use_cache=False)
+    cdir = cachelab.user_cache_dir(prod.mapper_root())
+    written = {p.name: p.read_bytes() for p in sorted(cdir.iterdir())} if cdir.exists() else {}
+    _big.update({"lines": lines, "prod": prod, "ref": ref, "cdir": cdir, "written": written, "name": synth.file_names(spec)["img"][0]})
+    return _big
+
+
+def execute_large(case):
+    st = big_setup(case["lines"])
+    prod, ref, cdir = st["prod"], st["ref"], st["cdir"]
+    fails, n = [], 0
+    if not st["written"]:
+        return {"ok": False, "failures": [{"sig": {"kind": "no-cache-written"}, "detail": "create_cache=True left no file in the user cache dir", "case": case}], "outcome": "no-cache"}
+    fname, full = max(st["written"].items(), key=lambda kv: len(kv[1]))
+    cuts = [c for c in case["cuts"] if c <= len(full)] if case["cuts"] != "info" else []
+    if case["cuts"] == "info":
+        return {"ok": True, "outcome": "info", "nontrivial": False, "size": len(full), "n": 0, "file": fname}
+
+    def bad(kind, cut, detail, **extra):
+        sig = {"kind": kind, "large": True, **extra}
+        if core.jkey(sig) not in {core.jkey(f["sig"]) for f in fails}:
+            fails.append({"sig": sig, "detail": f"{case['lines']}-line image, cache file {fname} cut at {cut}/{len(full)}: {detail}", "case": {**case, "cuts": [cut]}})
+
+    for i, cut in enumerate(cuts):
+        for other, data in st["written"].items():
+            (cdir / other).write_bytes(data)
+        (cdir / fname).write_bytes(full[:cut])
+        n += 1
+        try:
+            t = prod.open()
+            d = treesnap.diff(ref, treesnap.snapshot(t, with_bytes=False))
+            if d:
+                bad("tree-differs-after-torn-cache", cut, treesnap.short(d, 2))
+        except Exception as e:
+            bad("open-raises-on-torn-cache", cut, f"open_alos2 raises {type(e).__name__}: {str(e)[:100]}", exc=type(e).__name__)
+            continue
+        if i % case.get("steps_every", 8):
+            continue
+        try:
+            prod.open(create_cache=True)
+            vfs.reset_log()
+            t = prod.open(use_cache=True)
+            reads = img_reads(st["name"])
+            d = treesnap.diff(ref, treesnap.snapshot(t, with_bytes=False))
+            if d:
+                bad("tree-differs-after-recovery", cut, treesnap.short(d, 2))
+            if reads and cut < len(full):
+                bad("cache-not-repaired", cut, f"after create_cache=True a cached open still reads the image ({len(reads)} reads)")
+        except Exception as e:
+            bad("repair-raises", cut, f"{type(e).__name__}: {str(e)[:100]}", exc=type(e).__name__)
+    return {"ok": not fails, "failures": fails, "outcome": "large-ok" if not fails else fails[0]["sig"]["kind"], "nontrivial": True, "n": n}
+
+
 def doc_lengths():
     """lengths of the complete documents (computed once in a helper process)"""
     out = {}
@@ -187,7 +253,8 @@ def run(res, tier, seed):
         "for each image of a level 1.1 and a level 1.5 product (documents of ~10 kB / ~7 kB) and each location {user cache, adjacent}:"
         " every byte prefix 0..len through sar_image.open_image; through open_alos2 every prefix (thorough) or every 3rd structural"
         " JSON token +-1, every 32nd byte and the first/last 24 (quick; second image sparser), with the repair + cached-open steps on every 8th (quick) / 4th"
-        " (thorough); pairs torn+complete and torn+torn (both locations) at token positions. A batch is non-trivial if it contains a proper prefix."
+        " (thorough); pairs torn+complete and torn+torn (both locations) at token positions; plus a 6000-line image whose index is > 1 MiB:"
+        " whatever file create_cache leaves is cut at every 4 KiB block boundary +-1 (thorough) / every 64 KiB (quick). A batch is non-trivial if it contains a proper prefix."
     )
     res.assumptions = ["post-crash states of one in-place write_text = byte prefixes of the document (single file, append after truncate)", "a writer still running exposes the same prefixes to a reader", "real SIGKILLs are sampling and are not used"]
     # document lengths: ask one worker
@@ -223,6 +290,20 @@ def run(res, tier, seed):
             res.record(small, out, order=order)
             order += 1
             n_states += out["n"]
+    # large index (> 1 MiB): crash points at every 4096-byte block boundary +-1 (thorough) / every 64 KiB (quick)
+    LINES = 6000
+    size = None
+    for idx, case, out in core.pool_map(__name__, "execute_large", [{"lines": LINES, "cuts": "info"}], procs=1):
+        size = out["size"]
+    if size:
+        step = 4096 if tier == "thorough" else 65536
+        pts = sorted({p + d for p in range(0, size + 1, step) for d in (-1, 0, 1) if 0 <= p + d <= size} | set(range(0, 12)) | set(range(size - 12, size + 1)))
+        big = [{"fn": "execute_large", "lines": LINES, "cuts": c, "steps_every": 8} for c in chunks(pts, 6 if tier == "quick" else 24)]
+        for idx, case, out in core.pool_map(__name__, "execute_large", big, chunksize=1):
+            res.record({"fn": "execute_large", "lines": LINES, "cuts": [case["cuts"][0], "..", case["cuts"][-1]]}, out, order=order)
+            order += 1
+            n_states += out["n"]
+        res.extra["large_index_bytes"] = size
     res.extra["torn_states_executed"] = n_states
     res.extra["document_lengths"] = {k: v for k, v in info.items() if not k.endswith("tokens")}
 
